@@ -1,8 +1,11 @@
 #!/usr/bin/env python3
-"""eval_seeded.py [--tier quick] [--checks C08,C13] [--jobs N] <seeded-id>...
-Runs the registered check(s) against seeded breaking changes.  Each change is applied in its own git
-worktree of /repo (never in /repo itself) and the check is pointed at it with VERIF_REPO; the worktree
-is removed afterwards.  Default check = the property named in the change's meta.json."""
+"""eval_seeded.py [--jobs N] [--no-quick] [--no-targeted] <seeded-id>...
+Runs the registered checks against seeded breaking changes (seeded/<id>/patch.diff).  Each change is applied
+in its own git worktree of /repo (never in /repo itself) and the check is pointed at it with VERIF_REPO; the
+worktree is removed afterwards.  Two stages per (change, check) row of seeded/targets.tsv:
+  quick     the check's quick command as registered (the fixed quick subset)
+  targeted  (only if quick did not detect it) the harnesses of the thorough tier named in targets.tsv
+Results are merged into seeded/RESULTS.json (latest result per change/check/stage wins)."""
 import argparse, json, os, pathlib, subprocess, sys, time
 V = pathlib.Path(__file__).resolve().parent.parent
 
@@ -11,42 +14,50 @@ def sh(c, **kw):
 
 ap = argparse.ArgumentParser()
 ap.add_argument('ids', nargs='+')
-ap.add_argument('--tier', default='quick')
-ap.add_argument('--checks', default=None)
-ap.add_argument('--jobs', default='8')
-ap.add_argument('--only', default=None)
+ap.add_argument('--jobs', default='7')
+ap.add_argument('--no-quick', action='store_true')
+ap.add_argument('--no-targeted', action='store_true')
 a = ap.parse_args()
-out = {}
+targets = {}
+for line in (V / 'seeded' / 'targets.tsv').read_text().splitlines():
+    if line.startswith('#') or not line.strip():
+        continue
+    sid, chk, only = line.split('\t')
+    targets.setdefault(sid, []).append((chk, only))
+rp = V / 'seeded' / 'RESULTS.json'
+
+def run(sid, wt, chk, stage, only):
+    env = dict(os.environ, VERIF_REPO=str(wt), VERIF_JOBS=a.jobs)
+    t0 = time.time()
+    cmd = f'{V}/bin/check {chk} --no-evidence ' + ('--tier quick' if stage == 'quick' else f'--tier thorough --only {only}')
+    p = subprocess.run(cmd, shell=True, text=True, capture_output=True, env=env, cwd=V)
+    viol = [l for l in p.stdout.splitlines() if l.startswith('VIOLATION')]
+    fails = [l.split()[1].split('::')[-1] for l in p.stdout.splitlines() if l.strip().startswith('FAIL')]
+    inconc = [l.split()[1].split('::')[-1] for l in p.stdout.splitlines() if l.strip().startswith('INCONCLUSIVE ') and '::' in l]
+    r = {'exit': p.returncode, 'detected': p.returncode == 1 and bool(viol), 'violations': viol, 'failing': fails,
+         'inconclusive': inconc, 'wall_s': round(time.time() - t0), 'stage': stage, 'only': only if stage != 'quick' else None}
+    (V / 'seeded' / sid / f'result_{chk}_{stage}.txt').write_text(p.stdout[-20000:])
+    allr = json.loads(rp.read_text()) if rp.exists() else {}
+    allr[f'{sid}/{chk}/{stage}'] = r
+    rp.write_text(json.dumps(allr, indent=1, sort_keys=True))
+    print(sid, chk, stage, 'exit', p.returncode, 'DETECTED' if r['detected'] else 'missed', fails[:3], inconc[:3], f"{r['wall_s']}s", flush=True)
+    return r
+
 for sid in a.ids:
     d = V / 'seeded' / sid
-    meta = json.loads((d / 'meta.json').read_text())
-    checks = a.checks.split(',') if a.checks else [meta['property']]
     wt = pathlib.Path(f'/tmp/mut-{sid}')
     sh(f'git -C /repo worktree remove --force {wt}')
     r = sh(f'git -C /repo worktree add --detach {wt} HEAD')
     assert r.returncode == 0, r.stderr
     r = sh(f'git apply {d}/patch.diff', cwd=wt)
     if r.returncode != 0:
-        out[sid] = 'patch does not apply'; print(sid, out[sid]); sh(f'git -C /repo worktree remove --force {wt}'); continue
-    for c in checks:
-        env = dict(os.environ, VERIF_REPO=str(wt), VERIF_JOBS=a.jobs)
-        t0 = time.time()
-        cmd = f'{V}/bin/check {c} --tier {a.tier} --no-evidence' + (f' --only {a.only}' if a.only else '')
-        p = subprocess.run(cmd, shell=True, text=True, capture_output=True, env=env, cwd=V)
-        viol = [l for l in p.stdout.splitlines() if l.startswith('VIOLATION')]
-        fails = [l.strip()[:160] for l in p.stdout.splitlines() if l.strip().startswith('FAIL')]
-        out[f'{sid}/{c}'] = {'exit': p.returncode, 'violations': viol, 'failing': fails, 'wall_s': round(time.time() - t0)}
-        print(sid, c, 'exit', p.returncode, viol[:2], fails[:3], flush=True)
-        (V / 'seeded' / sid / f'result_{c}_{a.tier}.txt').write_text(p.stdout[-20000:])
-    sh(f'git -C /repo worktree remove --force {wt}')
-json.dump(out, open('/tmp/eval_seeded_last.json', 'w'), indent=1)
-# committed summary of every evaluation ever run (latest result per change/check wins)
-rp = V / 'seeded' / 'RESULTS.json'
-allr = json.loads(rp.read_text()) if rp.exists() else {}
-for k, v in out.items():
-    if isinstance(v, dict):
-        v['tier'] = a.tier
-        v['only'] = a.only
-        v['detected'] = v['exit'] == 1 and bool(v['violations'])
-    allr[k] = v
-rp.write_text(json.dumps(allr, indent=1, sort_keys=True))
+        print(sid, 'patch does not apply'); sh(f'git -C /repo worktree remove --force {wt}'); continue
+    try:
+        for chk, only in targets.get(sid, []):
+            det = False
+            if not a.no_quick:
+                det = run(sid, wt, chk, 'quick', None)['detected']
+            if not det and not a.no_targeted:
+                run(sid, wt, chk, 'targeted', only)
+    finally:
+        sh(f'git -C /repo worktree remove --force {wt}')
